@@ -43,11 +43,16 @@ Next ==
     /\ StateClausesNext = {}
     /\ (Passes = 2 => pass < 2)                      \* bound the repetition for TLC
     /\ revd' = (IF e.k = KR THEN revd \cup {x \in e.b..(e.a - 1) : TRUE}
-                ELSE IF e.k = KER THEN {} ELSE revd)
+                ELSE IF e.k = KER /\ Passes = 2 THEN {} ELSE revd)
 
 Spec == Init /\ [][Next]_fvars
 
-View == <<maxN, fwd, told, adj, wIcs, wDeps, lost, ram, disk, phase, pass, atEF, p1, pos>>
+(* counters and the recorded first pass are observation only: hidden from the fingerprint *)
+View == <<maxN, fwd, told, adj, wIcs, wDeps, lost, ram, disk, phase, pass, atEF, revd>>
+
+(* with repeated passes the recorded first pass decides what may follow: it must be visible *)
+ViewRepeat == <<View, p1, pos>>
+PassBound == Len(p1) <= 5        \* CONSTRAINT of the repeat configuration (a pass may recompute for ever)
 
 (* ---- what the clauses must imply ---- *)
 WorkInvariant == AllMem \/ IsEmpty(wDeps) \/ (wDeps[2] <= N - adj + 1 /\ wDeps[2] - wDeps[1] = 1)
